@@ -48,7 +48,7 @@ ASSUMPTIONS = [
     "the fake kernel copies exactly value_size bytes like the real one; its "
     "copies are clipped to the Python buffer (C10 judges the clipping)",
 ]
-EXAMPLES = {"quick": 60, "thorough": 1500}
+EXAMPLES = {"quick": 60, "thorough": 5000}
 MIN_NONTRIVIAL = {"quick": 150, "thorough": 3000}
 
 HFMTS = "BHIQbhiq"
